@@ -84,6 +84,8 @@ def run(ch: Checker) -> None:
     content_length_check(ch, 'C06.1')
     bhr = prog.function('proxy.common.utils', 'build_http_response')
     g = cfg_of(bhr, prog, exc_edges=False)
+    from .c15 import _te_flags, _is_te_scan_text
+    te_flags = _te_flags(bhr)
     bad = None
     n = 0
     for p in fpaths(g):
@@ -91,12 +93,13 @@ def run(ch: Checker) -> None:
         if p.exit_kind != 'return':
             continue
         fd = allfacts(p)
-        if fd.get('no_cl') is not True and fd.get('has_transfer_encoding') is not True:
+        te_seen = any(pol is True and (_is_te_scan_text(a) or a in te_flags) for a, pol in fd.items())    # the scan for a Transfer-Encoding header, whatever its flag is called
+        if fd.get('no_cl') is not True and not te_seen:
             n += 1
             stores = [st for i, st in p.stmts() if isinstance(st, ast.Assign) and isinstance(st.targets[0], ast.Subscript) and ce.try_eval(bhr.module, st.targets[0].slice) == b'Content-Length']
             if not stores:
                 bad = ('a response without transfer-encoding header and without no_cl is built WITHOUT the builder computing Content-Length (extra condition: %s): a length supplied '
-                       'by the caller survives even when the body was replaced (e.g. gzip-compressed by okResponse)' % [k for k, v in fd.items() if k not in ('no_cl', 'has_transfer_encoding', 'reason', 'body', 'conn_close')], p.describe(20))
+                       'by the caller survives even when the body was replaced (e.g. gzip-compressed by okResponse)' % [k for k, v in fd.items() if k not in ('no_cl', 'reason', 'body', 'conn_close') and k not in te_flags], p.describe(20))
     ch.check(bad is None and n > 0, 'C06.1', bhr, 'Content-Length always computed', 'Content-Length computed on all %d path(s) without TE / no_cl' % n, bad[0] if bad else '', witness=bad[1] if bad else None)
     # okResponse gzip agreement
     okr = prog.function('proxy.http.responses', 'okResponse')
